@@ -628,3 +628,85 @@ def apalache_obligations(ctx, obligations, timeout=240):
     ctx.extra["apalache"] = notes
     if failed:
         raise core.MachineryError("Apalache found a counterexample to %s:\n%s" % failed[0])
+
+
+# --------------------------------------------------------------------------- S2C: life cycle of the element
+def _tolist(b):
+    return [_tolist(x) for x in b] if isinstance(b, (list, tuple)) else b
+
+
+def replay_element(ctx, rec, embs, report):
+    """Drive a real lena.structures.Histogram along one exported behaviour of HistElement.tla.
+
+    rec = {edges, ivar, init, ops: [{op: fill|reset, c, bins, oor}]}.  After every operation the histogram yielded
+    by compute() is compared with the model (bins, n_out_of_range), and weight conservation relative to the
+    initial content is checked on the real numbers.  Returns the number of embeddings run.
+    """
+    import lena.structures as S
+    gedges = rec["edges"]
+    dim = len(gedges)
+    ivar = rec["ivar"]
+    init = _tolist(rec["init"])
+    done = 0
+    for emb in embs:
+        if report.give_up:
+            break
+        fs = [emb.make(e) for e in gedges]
+        real = [[fs[d](k) for k in gedges[d]] for d in range(dim)]
+        edges_arg = real[0] if dim == 1 else real
+        where = "element-lifecycle:dim=%d:%s:%s" % (dim, ivar, emb.name)
+        given = copy.deepcopy(init)
+        calls = []
+        try:
+            if ivar == "plain":
+                el = S.Histogram(edges_arg)
+            elif ivar == "bins":
+                el = S.Histogram(edges_arg, bins=given)
+            elif ivar == "make":
+                def make_bins():
+                    calls.append(1)
+                    return copy.deepcopy(init)
+                el = S.Histogram(edges_arg, make_bins=make_bins)
+            else:
+                el = S.Histogram(edges_arg, initial_value=flat(init)[0])
+        except Exception as exc:   # noqa
+            report("construct:%s:raised:%s" % (where, exc_name(exc)), {"edges": repr(edges_arg), "init": init})
+            continue
+        done += 1
+        since = 0
+        base = sum(flat(init))
+        for j, op in enumerate(rec["ops"]):
+            detail = {"embedding": emb.name, "edges": repr(edges_arg), "ivar": ivar, "initial_bins": init,
+                      "ops": [dict(op=o["op"], c=o["c"]) for o in rec["ops"][:j + 1]], "spec": op}
+            try:
+                with watchdog(LIMIT):
+                    if op["op"] == "reset":
+                        el.reset()
+                        since = 0
+                    else:
+                        cvals = [fs[d](op["c"][d]) for d in range(dim)]
+                        coord = cvals[0] if dim == 1 else (tuple(cvals) if j % 2 else list(cvals))
+                        el.fill(coord if j % 2 else (coord, {"n": j}))
+                        since += 1
+                    res = list(el.compute())
+            except Exception as exc:   # noqa
+                report("%s:%s:raised:%s" % (op["op"], where, exc_name(exc)), dict(detail, exception=repr(exc)))
+                break
+            hist = res[0][0] if len(res) == 1 and isinstance(res[0], tuple) and len(res[0]) == 2 else None
+            if hist is None or not hasattr(hist, "bins"):
+                report("%s:%s:compute-not-one-histogram" % (op["op"], where), dict(detail, got=repr(res)[:300]))
+                break
+            got_bins, got_oor = _tolist(hist.bins), hist.n_out_of_range
+            after = "after-reset" if any(o["op"] == "reset" for o in rec["ops"][:j + 1]) else "first-life"
+            if got_bins != _tolist(op["bins"]):
+                report("%s:%s:%s:bins" % (op["op"], where, after), dict(detail, got=got_bins, want=op["bins"]))
+                break
+            if got_oor != op["oor"]:
+                report("%s:%s:%s:n_out_of_range" % (op["op"], where, after), dict(detail, got=got_oor, want=op["oor"]))
+                break
+            if sum(flat(got_bins)) + got_oor != base + since:
+                report("%s:%s:%s:conservation" % (op["op"], where, after),
+                       dict(detail, got=sum(flat(got_bins)) + got_oor, want=base + since))
+                break
+            ctx.evaluations += 3
+    return done
